@@ -15,6 +15,20 @@ FILLS = {'all-ffff': lambda a: 0xFFFF, 'all-0000': lambda a: 0, 'all-7fff': lamb
          'ramp': lambda a: (a * 257 + 3) & 0xFFFF, 'all-6363': lambda a: 0x6363}
 
 
+_HEALTHY_IDS = {}
+
+
+def _ids_with_healthy_contents(cfg):
+    if cfg['name'] not in _HEALTHY_IDS:
+        r = make_rig(cfg, fill=_healthy)
+        if cfg['family'] == 'ES':
+            for i in range(len(r.dev.settings)):
+                r.dev.settings[i] = 0
+        ok = r.call(r.inv.read_device_info)[0] == 'ok'
+        _HEALTHY_IDS[cfg['name']] = sorted({s.id_ for s in r.inv.settings()}) if ok else None
+    return _HEALTHY_IDS[cfg['name']]
+
+
 def run_case(cfg, fname, group=None, prepoll=False):
     r = make_rig(cfg, fill=FILLS[fname])
     inv, dev = r.inv, r.dev
@@ -40,6 +54,14 @@ def run_case(cfg, fname, group=None, prepoll=False):
     vio = []
     n = 0
     ids = [s.id_ for s in inv.settings()]
+    if group is None and not prepoll:
+        # which settings the object covers is a matter of model and firmware (what the inverter answers and refuses), not of
+        # what the registers hold: the same inverter with interpretable contents everywhere has the same ids
+        want = _ids_with_healthy_contents(cfg)
+        if want is not None and sorted(set(ids)) != want:
+            vio.append((f'settings-covered-do-not-depend-on-contents/{cfg["family"]}',
+                        f'{fname}: settings() lacks {sorted(set(want) - set(ids))[:4]} (+{len(set(want) - set(ids))}), has extra '
+                        f'{sorted(set(ids) - set(want))[:4]} compared with the same inverter holding interpretable contents'))
     # a second pass on the same object after the registers changed to the next content of the list (what was decodable
     # becomes undecodable and the other way round): an undecodable value never stands in the way of a decodable one
     names = list(FILLS)
